@@ -27,7 +27,7 @@ type PropInfo struct {
 }
 
 // ownershipClause: shared by every property (rules/own.go).
-const ownershipClause = " For every schedule: memory that is recycled in code this property's entry points reach has one owner at a time — nothing aliasing a sync.Pool object outlives its Put and it is put back once (POOL-OWN), what atomic.Pointer.Load returns is only read (ATOMIC-OWN), a slice handed over through a channel is not refilled by the sender unless it came back or the ring has at least cap+2 buffers (HANDOFF-OWN), a guarded container handed out of its critical section is moved out, not shared (LOCK-ESCAPE)."
+const ownershipClause = " For every schedule: memory that is recycled in code this property's entry points reach has one owner at a time — nothing aliasing a sync.Pool object outlives its Put and it is put back once (POOL-OWN), what atomic.Pointer.Load returns is only read (ATOMIC-OWN), a slice handed over through a channel is not refilled by the sender unless it came back or the ring has at least cap+2 buffers (HANDOFF-OWN), a guarded container handed out of its critical section is moved out, not shared (LOCK-ESCAPE). And one belief-contradiction check over the same code: a package-level error variable of the module is not compared with == / != where the compared value can carry it only wrapped (SENTINEL-IS), and the answer of an index search is not tested with > 0 / <= 0 (INDEX-TEST)."
 
 func PropByID(id string) *PropInfo {
 	for i := range Props {
